@@ -2,7 +2,7 @@
 CONSTANTS
   MaxOps = 5
   MaxBlocks = 1
-  Layouts = {"line", "inline", "cont"}
+  Layouts = {"line", "inline", "cont", "mltag"}
   FixF1 = TRUE
   FixDV1 = FALSE
   FixDV2 = FALSE
